@@ -5,7 +5,8 @@ from engb import H
 
 COMMON_BOUNDS = ['table zones with <= 2 (quick) / <= 3 (thorough) transitions at arbitrary i64 times, 3 local time types with arbitrary i32 offsets, trailing rule none or Fixed(any), leap table empty or 1 record (variant); searched civil second count arbitrary in [MIN, MAX+1] (second 60 included)',
                  'buffer 8 (> maximal number of results, asserted exhaustive); DST-rule zones: see rule-zone harnesses (thorough) and C04; the Vec instantiation is tied to this one by C17']
-STUBS = ['S_civil: datetime::unix_time := one symbolic civil second count c (discharged by C02: unix_time is that count, injective on valid fields)',
+STUBS = ['(thorough, *_rule_abstract) S_ruleday: RuleDay::unix_time := abstract yearly instants obeying K1 (locality) and K2 (364..371 days apart); S_year: UtcDateTime::from_timespec := year whose 1 January brackets the instant (K3), years 365/366 days (K4): all discharged by C04 (L1, contracts_K1_K2_*, contract:K3_*, contract:year_step)',
+         'S_civil: datetime::unix_time := one symbolic civil second count c (discharged by C02: unix_time is that count, injective on valid fields)',
          'S_pack: UtcDateTime::from_timespec := range gate + injective packing of t (discharged by C01)',
          'S_unreach: RuleDay::unix_time, AlternateTime::find_local_time_type := assert!(false)']
 
@@ -20,7 +21,20 @@ def run(ck):
         hs.append(H('c05_table_n1', cap=900, meaning='n<=1, same assertions (fast witness)'))
     else:
         hs += [H('c05_table_n3', cap=7200, meaning='n<=3'), H('c05_table_leap1_n2', cap=7200, required=False, meaning='n<=2 with one leap-second record')]
-    kprop.run_harnesses(ck, hs, on_fail=lambda B, h: kprop.replay_search_failure(ck, B, h, int(re.search(r'_n(\d)', h.name).group(1))))
+    if not quick:
+        hs.append(H('c05_rule_abstract', cap=9000, required=False, meaning='DST-rule zones, ALL years and ALL rules: real search and real forward lookup over abstract rule-day instants constrained by the contracts K1-K4 (discharged in C04), interleaving pattern assumed, known-finding role F2 (tie years) excluded: same assertions as the table harnesses'))
+
+    def on_fail(B, h):
+        if 'rule_abstract' in h.name:
+            import ruleref
+            r = ruleref.judge(common.Native())
+            if r:
+                ck.violation(f'{h.name}: {r[0]}', dict(r[1], kind='rule-corpus'))
+            else:
+                ck.inconclusive.append(f'{h.name} FAILED ({h.failed_checks[:3]}); no rule of the replay corpus reproduces a deviation natively (abstract counterexample not concretised)')
+        else:
+            kprop.replay_search_failure(ck, B, h, int(re.search(r'_n(\\d)', h.name).group(1)))
+    kprop.run_harnesses(ck, hs, on_fail=on_fail)
     ck.functions += ['datetime::find::find_date_time', 'DateTime::find_n', 'FoundDateTimeListRefMut::{push,data,count,is_exhaustive,unique}', 'TimeZoneRef::find_local_time_type', 'TimeZoneRef::unix_time_to_unix_leap_time', 'TimeZoneRef::unix_leap_time_to_unix_time', 'DateTime::from_timespec_and_local']
     ck.explanation = 'Search and forward lookup are two different algorithms; CBMC decides that they agree for every zone up to the bound, every civil time and every instant (relation over all zones x all local times).'
 
@@ -28,6 +42,11 @@ def run(ck):
 def replay(ck, case):
     nat = common.Native()
     c = case['case']
+    if c.get('kind') == 'rule-corpus':
+        import ruleref
+        r = ruleref.judge(nat)
+        print('violates:', r[0] if r else None)
+        return 1 if r else 0
     z = zoneref.Zone(**{k: ([tuple(x) for x in v] if isinstance(v, list) else (tuple(v) if v else None)) for k, v in c['zone'].items()}) if 'zone' in c else None
     if z is None:
         print(nat.both([c['cmd']]))
